@@ -104,6 +104,10 @@ func (it *Interp) formatInt(t *Term, signed bool, width int, zero bool) *Str {
 	}
 	cons = st.And(cons, st.Eq(sum, v))
 	it.pushPC(cons)
+	if it.digitSum == nil {
+		it.digitSum = map[*Term]*Term{}
+	}
+	it.digitSum[sum] = v // a scanner that rebuilds this sum from the digits gets v back
 	N := width
 	if N < 1 {
 		N = 1
